@@ -9,7 +9,7 @@ PROPS_V = "theories/Props/C02.v"
 
 def run(ctx):
     common.app_check(ctx, "C02", PROPS_V if os.path.exists(os.path.join(V.COQ, PROPS_V)) else None, THEOREMS,
-                     codes=[1, 2, 3, 7], pred="P_C02", effect_codes=(21,), known_classes=(1,),
+                     codes=[1, 2, 3, 7], pred="P_C02", effect_codes=(21, 24), known_classes=(1,),
                      extra_assume=["stake hashes stay unique along the run (hypothesis of C02_holds; C02_collision_refuted: two genesis stakes, which all carry hash 0, unbonding at once lose one — known finding)",
                                    "supply bound: genesis total + issued rewards < 2^256, so no balance wraps (the predicate checks every balance is in range)",
                                    "EVM transactions: the observed balance changes of one contract transaction sum to -gasUsed*price - burn (go-ethereum; checked by the C17 reference-EVM differential), histories with contract transactions are skipped by this predicate"],
